@@ -806,8 +806,13 @@ class HttpProxyPlugin(HttpProtocolHandlerPlugin):
                 if self.flags.insecure_tls_interception
                 else ssl.VerifyMode.CERT_REQUIRED
             )
+            # IPv6 literals carry their brackets in request.host, the
+            # certificate is to be verified against the bare address.
+            server_hostname = text_(self.request.host)
+            if server_hostname.startswith('[') and server_hostname.endswith(']'):
+                server_hostname = server_hostname[1:-1]
             self.upstream.wrap(
-                text_(self.request.host),
+                server_hostname,
                 self.flags.ca_file,
                 as_non_blocking=True,
                 verify_mode=verify_mode,
